@@ -893,3 +893,355 @@ Lemma exclusion_nonvacuous :
     [KProps [(nm_limit, JObj [(n_type, JStr n_integer)])]; KAddProps false; KType [TObj]; KRequired []] /\
   valid sub_valid_simple (plain (exclude_names [nm_filter] s_filter_limit)) (JObj [(nm_limit, JInt 0)]) = true.
 Proof. repeat split. Qed.
+
+(* ---------- Part D : the class of a header / cookie from the declared schema ---------- *)
+Lemma is_bare_string_eq s : is_bare_string s = true <-> s = bare_string.
+Proof.
+  unfold is_bare_string. split.
+  - intros H. apply json_eqb_eq in H. injection H as ->. reflexivity.
+  - intros ->. apply json_eqb_refl.
+Qed.
+
+Lemma header_class_bare_iff v2 decl exs :
+  header_class v2 decl exs = PStrOnly <-> header_prop_schema v2 decl exs = bare_string.
+Proof.
+  unfold header_class. destruct (is_bare_string _) eqn:E.
+  - split; [intros _; apply is_bare_string_eq; exact E | reflexivity].
+  - split; [discriminate|]. intros H. apply is_bare_string_eq in H. rewrite H in E. discriminate.
+Qed.
+
+Lemma header_class_other_iff v2 decl exs :
+  header_class v2 decl exs = POther <-> header_prop_schema v2 decl exs <> bare_string.
+Proof.
+  unfold header_class. destruct (is_bare_string _) eqn:E.
+  - apply is_bare_string_eq in E. split; [discriminate | intros H; contradiction].
+  - split; [|reflexivity]. intros _ H. apply is_bare_string_eq in H. rewrite H in E. discriminate.
+Qed.
+
+Definition small (s : jdict) : Prop := s = [] \/ s = bare_string.
+
+Lemma small_no_key k s : small s -> str_eqb k k_type = false -> assoc_mem k s = false.
+Proof. intros [->| ->] H; [reflexivity|]. unfold assoc_mem, bare_string. cbn [assoc_get]. rewrite H. reflexivity. Qed.
+
+Lemma assoc_mem_set_same {A} k (v : A) l : assoc_mem k (assoc_set k v l) = true.
+Proof. unfold assoc_mem. rewrite assoc_get_set_same. reflexivity. Qed.
+
+Lemma hp_default_small s : hp_default_type s = bare_string -> small s.
+Proof.
+  unfold hp_default_type. destruct (assoc_mem k_type s).
+  - intros ->. right. reflexivity.
+  - destruct s as [|a [|b r]]; [left; reflexivity| |]; cbn [app]; intros H; discriminate.
+Qed.
+
+Lemma hp_file_small s : small (hp_file s) -> small s.
+Proof.
+  unfold hp_file. destruct (assoc_get k_type s) as [[| | |t| |]|]; try (intros H; exact H).
+  destruct (str_eqb t k_file); [|intros H; exact H].
+  intros H. pose proof (small_no_key k_format _ H eq_refl) as X. rewrite assoc_mem_set_same in X. discriminate.
+Qed.
+
+Lemma hp_nullable_small v2 s : small (hp_nullable v2 s) -> small s.
+Proof.
+  unfold hp_nullable. destruct (assoc_get (nullable_name v2) s) as [[|[]| | | |]|]; try (intros H; exact H).
+  intros [H|H]; discriminate.
+Qed.
+
+Lemma hp_examples_small exs s : small (hp_examples exs s) -> exs = [] /\ small s.
+Proof.
+  unfold hp_examples. destruct exs as [|e r]; [intros H; split; [reflexivity|exact H]|].
+  intros H. pose proof (small_no_key k_examples _ H eq_refl) as X. rewrite assoc_mem_set_same in X. discriminate.
+Qed.
+
+Lemma header_prop_bare_inv v2 decl exs :
+  header_prop_schema v2 decl exs = bare_string -> exs = [] /\ small (hp_filter v2 decl).
+Proof.
+  unfold header_prop_schema. intros H.
+  apply hp_default_small, hp_file_small, hp_nullable_small, hp_examples_small in H. exact H.
+Qed.
+
+(* the keys the independent reading looks at all survive the keyword filter, in both dialects *)
+Lemma entry_violable_kept v2 kv : entry_violable kv = true -> keep_keyword v2 (fst kv) = true.
+Proof.
+  unfold entry_violable. destruct kv as [k v]. cbn [fst snd].
+  destruct (str_eqb k k_type) eqn:E1.
+  { apply str_eqb_spec in E1. subst k. destruct v2; reflexivity. }
+  destruct (smem k constraint_keys) eqn:E2.
+  { intros _. unfold smem, constraint_keys in E2. cbn [existsb] in E2.
+    repeat (apply orb_true_iff in E2; destruct E2 as [E2|E2]);
+      try (apply str_eqb_spec in E2; subst k; destruct v2; reflexivity). discriminate. }
+  destruct (str_eqb k k_minLength) eqn:E3; [|discriminate].
+  apply str_eqb_spec in E3. subst k. intros _. destruct v2; reflexivity.
+Qed.
+
+Lemma entry_violable_not_bare kv : entry_violable kv = true -> kv <> (k_type, JStr k_string).
+Proof. intros H ->. vm_compute in H. discriminate. Qed.
+
+(* T2: whatever a text value can violate is claimed negatable by the code own predicate *)
+Lemma violable_header_claimed_negatable v2 decl exs :
+  header_value_violable decl = true -> header_class v2 decl exs = POther.
+Proof.
+  intros H. apply header_class_other_iff. intros Hb. apply header_prop_bare_inv in Hb. destruct Hb as [_ Hs].
+  unfold header_value_violable in H. apply existsb_exists in H. destruct H as [kv [Hin Hv]].
+  assert (X : In kv (hp_filter v2 decl)).
+  { unfold hp_filter. apply filter_In. split; [exact Hin | apply entry_violable_kept; exact Hv]. }
+  destruct Hs as [Hs|Hs]; rewrite Hs in X.
+  - destruct X.
+  - destruct X as [X|[]]. apply (entry_violable_not_bare kv Hv). symmetry. exact X.
+Qed.
+
+(* ---- the converse inside the region plain_header ---- *)
+Lemma kept_is_bare v2 kv :
+  plain_entry v2 kv = true -> entry_violable kv = false -> keep_keyword v2 (fst kv) = true -> kv = (k_type, JStr k_string).
+Proof.
+  unfold plain_entry, entry_violable. destruct kv as [k v]. cbn [fst snd].
+  destruct (str_eqb k k_type) eqn:E1.
+  - intros _ Hv _. apply str_eqb_spec in E1. subst k. apply negb_false_iff in Hv. apply json_eqb_eq in Hv. subst v. reflexivity.
+  - destruct (smem k constraint_keys); [intros _ H; discriminate|].
+    destruct (str_eqb k k_minLength).
+    + intros H1 H2. rewrite H1 in H2. discriminate.
+    + intros H1 _ H3. rewrite H3 in H1. discriminate.
+Qed.
+
+Lemma filter_none v2 l :
+  (forall kv, In kv l -> keep_keyword v2 (fst kv) = true -> fst kv = k_type) ->
+  existsb (str_eqb k_type) (map fst l) = false -> hp_filter v2 l = [].
+Proof.
+  unfold hp_filter. induction l as [|kv r IH]; [reflexivity|]. intros H Hn. cbn [map existsb] in Hn.
+  apply orb_false_iff in Hn. destruct Hn as [Hk Hr]. cbn [filter].
+  destruct (keep_keyword v2 (fst kv)) eqn:E.
+  - rewrite (H kv (or_introl eq_refl) E) in Hk. rewrite str_eqb_refl in Hk. discriminate.
+  - apply IH; [|exact Hr]. intros kv' Hin. apply H. right. exact Hin.
+Qed.
+
+Lemma plain_filter_small v2 decl :
+  plain_header v2 decl = true -> header_value_violable decl = false -> small (hp_filter v2 decl).
+Proof.
+  unfold plain_header, header_value_violable. intros Hp Hv. apply andb_true_iff in Hp. destruct Hp as [Hp Hu].
+  induction decl as [|kv r IH]; [left; reflexivity|].
+  cbn [forallb] in Hp. apply andb_true_iff in Hp. destruct Hp as [Hp1 Hp2].
+  cbn [existsb] in Hv. apply orb_false_iff in Hv. destruct Hv as [Hv1 Hv2].
+  cbn [map unique_strs] in Hu. apply andb_true_iff in Hu. destruct Hu as [Hu1 Hu2]. apply negb_true_iff in Hu1.
+  unfold hp_filter. cbn [filter]. fold (hp_filter v2 r).
+  destruct (keep_keyword v2 (fst kv)) eqn:E.
+  - pose proof (kept_is_bare v2 kv Hp1 Hv1 E) as ->. cbn [fst] in Hu1. right.
+    rewrite (filter_none v2 r); [reflexivity| |exact Hu1].
+    intros kv' Hin Hk.
+    assert (P : plain_entry v2 kv' = true) by (rewrite forallb_forall in Hp2; apply Hp2; exact Hin).
+    assert (V : entry_violable kv' = false).
+    { destruct (entry_violable kv') eqn:EV; [|reflexivity].
+      assert (X : existsb entry_violable r = true) by (apply existsb_exists; exists kv'; auto). rewrite X in Hv2. discriminate. }
+    rewrite (kept_is_bare v2 kv' P V Hk). reflexivity.
+  - apply IH; assumption.
+Qed.
+
+Lemma unviolable_plain_header_bare v2 decl :
+  plain_header v2 decl = true -> header_value_violable decl = false -> header_class v2 decl [] = PStrOnly.
+Proof.
+  intros Hp Hv. apply header_class_bare_iff. unfold header_prop_schema. cbn [hp_examples].
+  destruct (plain_filter_small v2 decl Hp Hv) as [-> | ->]; destruct v2; reflexivity.
+Qed.
+
+Lemma plain_header_class_iff v2 decl :
+  plain_header v2 decl = true ->
+  (header_class v2 decl [] = PStrOnly <-> header_value_violable decl = false).
+Proof.
+  intros Hp. split.
+  - intros Hc. destruct (header_value_violable decl) eqn:E; [|reflexivity].
+    rewrite (violable_header_claimed_negatable v2 decl [] E) in Hc. discriminate.
+  - apply unviolable_plain_header_bare. exact Hp.
+Qed.
+
+(* ---- operation level ---- *)
+
+Lemma existsb_map {A B} (f : B -> bool) (g : A -> B) l : existsb f (map g l) = existsb (fun x => f (g x)) l.
+Proof. induction l as [|a r IH]; [reflexivity|]. cbn [map existsb]. rewrite IH. reflexivity. Qed.
+
+Lemma existsb_ext_in {A} (f g : A -> bool) l : (forall x, In x l -> f x = g x) -> existsb f l = existsb g l.
+Proof.
+  induction l as [|a r IH]; [reflexivity|]. intros H. cbn [existsb]. rewrite (H a (or_introl eq_refl)), IH; [reflexivity|].
+  intros x Hx. apply H. right. exact Hx.
+Qed.
+
+Lemma header_params_nonempty v2 hs : existsb value_violable_h hs = true -> exists p ps, header_params v2 hs = p :: ps.
+Proof. destruct hs as [|h r]; [discriminate|]. intros _. eexists _, _. reflexivity. Qed.
+
+Lemma can_negate_headers_violable v2 hs :
+  existsb value_violable_h hs = true -> can_negate_headers (header_params v2 hs) = true.
+Proof.
+  intros H. destruct (header_params_nonempty v2 hs H) as [p [ps E]]. unfold can_negate_headers. rewrite E, <- E.
+  unfold header_params. rewrite existsb_map. apply existsb_exists in H. destruct H as [h [Hin Hv]].
+  apply existsb_exists. exists h. split; [exact Hin|]. cbn [snd]. unfold value_violable_h in Hv.
+  rewrite (violable_header_claimed_negatable v2 _ _ Hv). reflexivity.
+Qed.
+
+Lemma fallback_header k ps : is_header_location k = true -> fallback k ps = negb (can_negate_headers ps).
+Proof. destruct k; try discriminate; reflexivity. Qed.
+
+Lemma not_set_i_loc k i : no_explicit i = true -> not_set (i_loc k i) = true.
+Proof.
+  unfold no_explicit. intros H. repeat (apply andb_true_iff in H; destruct H as [H ?]). destruct k; assumption.
+Qed.
+
+Lemma draw_fits_i_loc k i : draws_fit Neg i = true -> draw_fits Neg k (i_loc k i) = true.
+Proof. intros H. destruct (draws_fit_split _ _ H) as [A [B [C [D _]]]]. destruct k; assumption. Qed.
+
+Lemma negatable_shape_loc k i : loc_negatable k (i_loc k i) = true -> negatable_shape i = true.
+Proof.
+  unfold negatable_shape. destruct k; cbn [i_loc]; intros ->; rewrite ?orb_true_r; reflexivity.
+Qed.
+
+(* the direction the property asks for: an operation with a header / cookie a text value can violate gets negative
+   cases (never a skip, never a reject), the location is drawn from the negative strategy and labelled negative *)
+Lemma violable_header_gets_negative_cases k v2 hs i :
+  is_header_location k = true ->
+  l_params (i_loc k i) = header_params v2 hs ->
+  existsb value_violable_h hs = true ->
+  no_explicit i = true -> draws_fit Neg i = true -> body_serializable i = true ->
+  strategy_of Neg k (i_loc k i) = SNeg /\
+  forall modes, exists lbl, label_case Neg modes i = Case lbl /\
+    comp lbl (ckind_of k) = Some Neg /\ present lbl (ckind_of k) = true.
+Proof.
+  intros Hk Hps Hv Hne Hfit Hs.
+  pose proof (can_negate_headers_violable v2 hs Hv) as Hcan.
+  destruct (header_params_nonempty v2 hs Hv) as [p [ps Eps]].
+  assert (Hfb : fallback k (l_params (i_loc k i)) = false).
+  { rewrite (fallback_header _ _ Hk), Hps, Hcan. reflexivity. }
+  pose proof (not_set_i_loc k i Hne) as Hns. pose proof (draw_fits_i_loc k i Hfit) as Hdf.
+  assert (Hstr : strategy_of Neg k (i_loc k i) = SNeg).
+  { unfold strategy_of, generator_of. rewrite Hfb. unfold not_set in Hns.
+    destruct (l_explicit (i_loc k i)); [|discriminate]. cbn [exclude_keys]. rewrite Hps, Eps. rewrite remaining_nil. reflexivity. }
+  split; [exact Hstr|].
+  assert (Hloc : loc_negatable k (i_loc k i) = true).
+  { unfold loc_negatable, has_params. rewrite Hfb, Hps, Eps. reflexivity. }
+  assert (Hlab : p_label (loc_part Neg k (i_loc k i)) = Some Neg /\ p_present (loc_part Neg k (i_loc k i)) = true).
+  { unfold loc_part, value_of, generator_of. cbn [p_label p_present]. rewrite Hfb.
+    unfold draw_fits in Hdf. rewrite Hstr in Hdf. unfold not_set in Hns.
+    destruct (l_explicit (i_loc k i)); [|discriminate]. cbn [value_eq_explicit].
+    destruct (l_draw (i_loc k i)); [rewrite andb_false_r in Hdf; discriminate|]. split; reflexivity. }
+  destruct Hlab as [Hl Hp].
+  assert (Hb : b_explicit (i_body i) = false).
+  { unfold no_explicit in Hne. apply andb_true_iff in Hne. destruct Hne as [_ Hb]. apply negb_true_iff in Hb. exact Hb. }
+  destruct (body_part_ok i Neg Hb Hs) as [bp Hbp].
+  pose proof (any_negated_shape i bp Hne Hfit Hs Hbp) as Hany.
+  rewrite (negatable_shape_loc k i Hloc) in Hany.
+  intros modes. unfold label_case. rewrite Hbp. cbn [gmode_eqb andb]. rewrite Hany. cbn [negb].
+  eexists. split; [reflexivity|].
+  unfold comp, present. cbn [parts find].
+  destruct k; try discriminate; cbn [i_loc ckind_of] in *; cbn [loc_part p_kind ckind_of ckind_eqb]; split; assumption.
+Qed.
+
+(* ---- skip iff nothing violable, for operations made of headers and cookies only, inside the region ---- *)
+Lemma loc_negatable_headers k v2 hs l :
+  is_header_location k = true -> l_params l = header_params v2 hs ->
+  forallb (plain_hparam v2) hs = true ->
+  loc_negatable k l = existsb header_violable hs.
+Proof.
+  intros Hk Hps Hr. unfold loc_negatable, has_params. rewrite (fallback_header _ _ Hk), Hps.
+  destruct hs as [|h r]; [reflexivity|].
+  change (header_params v2 (h :: r)) with ((h_name h, header_class v2 (h_decl h) (h_examples h)) :: header_params v2 r).
+  cbn [andb]. rewrite negb_involutive. unfold can_negate_headers.
+  change ((h_name h, header_class v2 (h_decl h) (h_examples h)) :: header_params v2 r) with (header_params v2 (h :: r)).
+  unfold header_params. rewrite existsb_map. apply existsb_ext_in. intros x Hx. cbn [snd].
+  rewrite forallb_forall in Hr. pose proof (Hr x Hx) as Hpx. unfold plain_hparam in Hpx.
+  apply andb_true_iff in Hpx. destruct Hpx as [Hpx Hreq]. apply andb_true_iff in Hpx. destruct Hpx as [Hpl Hnil].
+  apply negb_true_iff in Hreq. unfold header_violable. rewrite Hreq. cbn [orb].
+  destruct (h_examples x); [|discriminate].
+  destruct (header_value_violable (h_decl x)) eqn:E.
+  - rewrite (violable_header_claimed_negatable v2 _ [] E). reflexivity.
+  - rewrite (unviolable_plain_header_bare v2 _ Hpl E). reflexivity.
+Qed.
+
+Lemma skip_iff_no_violable_header v2 hs cs i :
+  l_params (i_header i) = header_params v2 hs -> l_params (i_cookie i) = header_params v2 cs ->
+  only_headers i = true -> forallb (plain_hparam v2) (hs ++ cs) = true ->
+  no_explicit i = true -> draws_fit Neg i = true -> body_serializable i = true ->
+  (label_case Neg [Neg] i = Skip <-> existsb header_violable (hs ++ cs) = false) /\
+  (forall modes, modes_only_negative modes = false ->
+     (label_case Neg modes i = Reject <-> existsb header_violable (hs ++ cs) = false)) /\
+  (forall modes, existsb header_violable (hs ++ cs) = true -> exists lbl, label_case Neg modes i = Case lbl).
+Proof.
+  intros Hh Hc Ho Hr Hne Hfit Hs.
+  rewrite forallb_app in Hr. apply andb_true_iff in Hr. destruct Hr as [Hrh Hrc].
+  assert (E : negatable_shape i = existsb header_violable (hs ++ cs)).
+  { unfold negatable_shape. rewrite existsb_app.
+    rewrite (loc_negatable_headers LHeader v2 hs _ eq_refl Hh Hrh), (loc_negatable_headers LCookie v2 cs _ eq_refl Hc Hrc).
+    unfold only_headers in Ho. apply andb_true_iff in Ho. destruct Ho as [Ho Hb]. apply andb_true_iff in Ho.
+    destruct Ho as [Hp Hq]. apply negb_true_iff in Hp, Hq. unfold loc_negatable. rewrite Hp, Hq.
+    destruct (b_alts (i_body i)); [|discriminate]. cbn [andb orb existsb]. rewrite ?orb_false_r. reflexivity. }
+  rewrite <- E. apply skip_iff_nothing_negatable; assumption.
+Qed.
+
+(* ---- witnesses and non-vacuity ---- *)
+Definition nm_xmode : str := [88; 45; 77; 111; 100; 101]%N.
+Definition nm_theme : str := [116; 104; 101; 109; 101]%N.
+Definition k_description : str := [100; 101; 115; 99; 114; 105; 112; 116; 105; 111; 110]%N.
+Definition d_bare : jdict := [(k_type, JStr k_string)].
+Definition d_enum : jdict := [(k_type, JStr k_string); (k_enum, JArr [JStr [102; 97; 115; 116]%N; JStr [115; 108; 111; 119]%N])].
+Definition d_pattern : jdict := [(k_type, JStr k_string); (k_pattern, JStr [94; 91; 97; 45; 122; 93; 123; 51; 125; 36]%N)].
+Definition d_minlen : jdict := [(k_minLength, JInt 3%Z)].
+Definition d_maxlen : jdict := [(k_description, JStr [100]%N); (k_type, JStr k_string); (k_maxLength, JInt 3%Z)].
+Definition d_format : jdict := [(k_format, JStr [100; 97; 116; 101]%N); (k_type, JStr k_string)].
+Definition d_integer : jdict := [(k_type, JStr n_integer)].
+Definition d_described : jdict := [(k_description, JStr [100]%N); (k_type, JStr k_string)].
+Definition d_example : jdict := [(k_type, JStr k_string); (k_example, JStr [120]%N)].
+Definition hp (name : str) (d : jdict) (req : bool) : hparam :=
+  {| h_name := name; h_decl := d; h_examples := []; h_required := req |}.
+Definition i_headers (hs cs : list hparam) (dh dc : draw) : op_in :=
+  {| i_path := loc_empty;
+     i_header := {| l_params := header_params false hs; l_explicit := ENotSet; l_draw := dh |};
+     i_cookie := {| l_params := header_params false cs; l_explicit := ENotSet; l_draw := dc |};
+     i_query := loc_empty; i_body := body_none |}.
+
+Lemma header_class_examples :
+  map (fun d => (header_value_violable d, header_class false d [], header_class true d [], plain_header false d))
+      [d_bare; []; d_described; d_enum; d_pattern; d_minlen; d_maxlen; d_format; d_integer] =
+  [(false, PStrOnly, PStrOnly, true); (false, PStrOnly, PStrOnly, true); (false, PStrOnly, PStrOnly, true);
+   (true, POther, POther, true); (true, POther, POther, true); (true, POther, POther, true); (true, POther, POther, true);
+   (true, POther, POther, true); (true, POther, POther, true)].
+Proof. vm_compute. reflexivity. Qed.
+
+(* the demo of the seeded regression: GET /mode with a required enum header, GET /theme with an optional pattern cookie *)
+Definition i_mode : op_in := i_headers [hp nm_xmode d_enum true] [] (DDict []) DNone.
+Definition i_theme : op_in := i_headers [] [hp nm_theme d_pattern false] DNone (DDict [(nm_theme, 0%N)]).
+Lemma violable_header_nonvacuous :
+  (l_params (i_loc LHeader i_mode) = header_params false [hp nm_xmode d_enum true] /\
+   existsb value_violable_h [hp nm_xmode d_enum true] = true /\
+   no_explicit i_mode = true /\ draws_fit Neg i_mode = true /\ body_serializable i_mode = true) /\
+  (l_params (i_loc LCookie i_theme) = header_params false [hp nm_theme d_pattern false] /\
+   existsb value_violable_h [hp nm_theme d_pattern false] = true /\
+   no_explicit i_theme = true /\ draws_fit Neg i_theme = true /\ body_serializable i_theme = true).
+Proof. repeat split. Qed.
+
+Definition i_described : op_in := i_headers [hp nm_xa d_described false] [hp nm_theme d_bare false] (DDict [(nm_xa, 0%N)]) (DDict []).
+Lemma skip_iff_headers_nonvacuous :
+  (only_headers i_described = true /\ forallb (plain_hparam false) ([hp nm_xa d_described false] ++ [hp nm_theme d_bare false]) = true /\
+   no_explicit i_described = true /\ draws_fit Neg i_described = true /\ body_serializable i_described = true /\
+   existsb header_violable ([hp nm_xa d_described false] ++ [hp nm_theme d_bare false]) = false /\
+   label_case Neg [Neg] i_described = Skip /\ label_case Neg [Pos; Neg] i_described = Reject) /\
+  (only_headers i_theme = true /\ forallb (plain_hparam false) ([] ++ [hp nm_theme d_pattern false]) = true /\
+   existsb header_violable ([] ++ [hp nm_theme d_pattern false]) = true /\
+   exists lbl, label_case Neg [Neg] i_theme = Case lbl /\ comp lbl CCookies = Some Neg).
+Proof. repeat split. eexists. split; reflexivity. Qed.
+
+(* finding F7: a string header whose schema only carries an annotation the converter keeps (example / examples /
+   a vendor extension, or a parameter-level example) cannot be violated by any text value, yet the code own predicate
+   says negatable: the negative strategy is chosen, the operation is never a skip, and at the level of the location
+   schema neither negate_constraints nor remove_required_property applies *)
+Definition s_example_location : schema :=
+  [KProps [(nm_xa, JObj d_example)]; KAddProps false; KType [TObj]].
+Definition i_example (d : draw) : op_in := i_headers [hp nm_xa d_example false] [] d DNone.
+Lemma annotated_header_not_skipped_refuted :
+  header_violable (hp nm_xa d_example false) = false /\
+  header_class false d_example [] = POther /\ header_class true d_example [] = POther /\
+  header_class false d_bare [JStr [120]%N] = POther /\
+  only_headers (i_example DNone) = true /\ no_explicit (i_example DNone) = true /\
+  (forall d, strategy_of Neg LHeader (i_header (i_example d)) = SNeg) /\
+  (forall d, draws_fit Neg (i_example d) = true ->
+     label_case Neg [Neg] (i_example d) <> Skip /\ exists lbl, label_case Neg [Neg] (i_example d) = Case lbl) /\
+  (forall ch, negate_constraints header_ctx false s_example_location ch = None) /\
+  (forall ch, remove_required_property (plain s_example_location) ch = None).
+Proof.
+  repeat split.
+  - destruct d as [|d]; [vm_compute in H; discriminate|]. intros Hl. vm_compute in Hl. discriminate.
+  - destruct d as [|d]; [vm_compute in H; discriminate|]. eexists. vm_compute. reflexivity.
+Qed.
